@@ -263,7 +263,7 @@ esl_root_Bisection(ESL_ROOTFINDER *R, double xl, double xr, double *ret_x)
     /* Test for convergence */
     xmag = (R->xl < 0. && R->xr > 0.) ?  0. : R->x;
     if (R->fx == 0.) break;	/* an exact root, lucky */
-    if (((R->xr-R->xl)  <  R->abs_tolerance + R->rel_tolerance*xmag) || fabs(R->fx) < R->residual_tol) break;
+    if (((R->xr-R->xl)  <  R->abs_tolerance + R->rel_tolerance*fabs(xmag)) || fabs(R->fx) < R->residual_tol) break;
 
     /* Narrow the bracket; pay attention to directionality */
     if (R->fl > 0.) {
@@ -333,7 +333,7 @@ esl_root_NewtonRaphson(ESL_ROOTFINDER *R, double guess, double *ret_x)
 
     /* Test for convergence. */
     if (R->fx == 0) break;	/* an exact root, lucky */
-    if ( (fabs(R->x - R->x0) < R->abs_tolerance + R->rel_tolerance*R->x) || fabs(R->fx) < R->residual_tol) break;
+    if ( (fabs(R->x - R->x0) < R->abs_tolerance + R->rel_tolerance*fabs(R->x)) || fabs(R->fx) < R->residual_tol) break;
   }
 
   *ret_x = R->x;
